@@ -228,7 +228,8 @@ pub enum Op {
     TimerFired { id: usize },
     CreatePlan { params: ParamsView, meta: Option<MetaView>, body: Vec<u8>, signature: Option<Vec<u8>>, offered: usize, answer: Result<String, String> },
     Install { plan_id: String },
-    Progress { i: usize, value: f32 },
+    /// `batch`: how many receive_progress calls were issued together with this one (1 = sequential)
+    Progress { i: usize, value: f32, batch: usize },
     ProgressDone { i: usize },
     InstallDone { results: Vec<u8> },
     Reboot { ok: bool },
@@ -267,7 +268,7 @@ pub struct AppSpec {
 
 #[derive(Clone, Copy, Debug, PartialEq, Eq, Hash, Default)]
 pub struct TimingSpec {
-    /// 0 wall-only, 1 monotonic-only, 2 complex
+    /// 0 wall-only, 1 monotonic-only, 2 complex, 3 the same (absolute) timing as the previous answer
     pub kind: u8,
     pub delta_ms: u64,
     pub min_wait_ms: Option<u64>,
@@ -347,6 +348,8 @@ pub struct InstallSpec {
     /// 0 installed, 1 deferred, 2 failed; padded with 0 / truncated to the number of offered apps
     pub results: Vec<u8>,
     pub progress: Vec<f32>,
+    /// number of receive_progress calls kept in flight at once (0/1 = sequential)
+    pub concurrent: u8,
 }
 
 #[derive(Clone, Debug, PartialEq, Default)]
